@@ -4,7 +4,9 @@ import (
 	"bytes"
 	"errors"
 	"hash"
+	"maps"
 	"os"
+	"slices"
 	"time"
 
 	"github.com/go-git/go-git/v6/plumbing/format/index"
@@ -149,5 +151,35 @@ func copyIndex(idx *index.Index) *index.Index {
 		ce := *e
 		cp.Entries[i] = &ce
 	}
+	// The extensions are handed out by pointer too: give the copy its own.
+	cp.Cache = copyTree(idx.Cache)
+	cp.ResolveUndo = copyResolveUndo(idx.ResolveUndo)
+	cp.EndOfIndexEntry = copyEndOfIndexEntry(idx.EndOfIndexEntry)
+	return &cp
+}
+
+func copyTree(t *index.Tree) *index.Tree {
+	if t == nil {
+		return nil
+	}
+	return &index.Tree{Entries: slices.Clone(t.Entries)}
+}
+
+func copyResolveUndo(ru *index.ResolveUndo) *index.ResolveUndo {
+	if ru == nil {
+		return nil
+	}
+	cp := &index.ResolveUndo{Entries: slices.Clone(ru.Entries)}
+	for i := range cp.Entries {
+		cp.Entries[i].Stages = maps.Clone(cp.Entries[i].Stages)
+	}
+	return cp
+}
+
+func copyEndOfIndexEntry(e *index.EndOfIndexEntry) *index.EndOfIndexEntry {
+	if e == nil {
+		return nil
+	}
+	cp := *e
 	return &cp
 }
